@@ -41,14 +41,16 @@ XCLS = {"ValueError": "XValueError", "IndexError": "XIndexError", "UnboundLocalE
         "KeyError": "XKeyError"}
 
 CASE_TYPE = {
-    "gi": "(list cday * res dst_indices)%type",
+    "gi": "(policy * list cday * res dst_indices)%type",
     "cd": "(list (list Z) * dst_indices * res (list (list Z)))%type",
     "td": "(list Z * dst_indices * res (list Z))%type",
     "ts": "(list Z * dst_indices * option (list Z))%type",
     "ci": "(Z * Z * list Z)%type",
-    "hp": "(list cday * outcome)%type",
+    "hp": "(policy * list cday * outcome)%type",
     "dp": "(bool * nat * list dcase_row * list (Z * bool))%type",
 }
+
+POLICY = "(policy_of false false)"      # behaviour of the implementation on the probes (set in main)
 
 MODEL_JSON = None          # one fitted hourly model, re-labelled per zone (set in main before the pool forks)
 
@@ -389,39 +391,43 @@ def run_dp(case):
             model = sd.build_model(kind, subs, z)
         cls = sd.data_classes(kind)
         n = case["n"]
-        try:
-            if case["input"] == "daily":
+        inp = case["input"]
+        idx = None
+        if inp == "daily":
+            try:
                 idx = pd.date_range(start=case["start_date"], periods=n, freq="D", tz=z)
-            else:
-                s = cz.local_midnight_utc(pd.Timestamp(case["start_date"]).toordinal(), z, 0)
-                if s is None:
-                    s = cz.local_midnight_utc(pd.Timestamp(case["start_date"]).toordinal(), z, 1)
-                s0 = cz.to_minutes(s) + 60 * case["start_hour"]
-                idx = pd.DatetimeIndex(pd.to_datetime([(s0 + 60 * k) * MIN for k in range(n * 24 - case["cut_end"])],
-                                                      utc=True)).tz_convert(z)
-        except Exception as e:   # noqa
-            return {"gen": exc_obs(e)}
+            except Exception:   # noqa  (a local midnight of the span does not exist / is ambiguous: hourly readings instead)
+                inp = "hourly"
+        if idx is None:
+            od = pd.Timestamp(case["start_date"]).toordinal()
+            s = cz.local_midnight_utc(od, z, 0) or cz.local_midnight_utc(od, z, 1)
+            s0 = cz.to_minutes(s) + 60 * case["start_hour"]
+            idx = pd.DatetimeIndex(pd.to_datetime([(s0 + 60 * k) * MIN for k in range(max(2, n * 24 - case["cut_end"]))],
+                                                  utc=True)).tz_convert(z)
         m = len(idx)
         r = np.random.default_rng(case["seed"])
-        temp = 55 + 25 * np.sin(np.arange(m) / (1 if case["input"] == "daily" else 24) / 58.0) + r.normal(0, 3, m)
+        per = 1 if inp == "daily" else 24
+        temp = 55 + 25 * np.sin(np.arange(m) / per / 58.0) + r.normal(0, 3, m)
         obs = 20 + 0.8 * np.maximum(55 - temp, 0) + r.normal(0, 1, m)
         fr = pd.DataFrame({"observed": obs, "temperature": temp}, index=idx)
+        sc = per if case["input"] == "daily" else 1        # span positions were drawn in units of the planned input
         for a, b in case["temp_nan"]:
-            fr.iloc[a:b, 1] = np.nan
+            fr.iloc[a * sc:b * sc, 1] = np.nan
         for a, b in case["obs_nan"]:
-            fr.iloc[a:b, 0] = np.nan
+            fr.iloc[a * sc:b * sc, 0] = np.nan
         if case["gaps"]:
             keep = np.ones(m, dtype=bool)
             for a, b in case["gaps"]:
-                keep[a:b] = False
-            fr = fr[keep]
+                keep[a * sc:b * sc] = False
+            if keep.sum() >= 2:
+                fr = fr[keep]
         if not case["with_obs"]:
             fr = fr[["temperature"]]
         try:
             with contextlib.redirect_stdout(io.StringIO()):
                 if kind == "billing":
                     if case["with_obs"]:
-                        step = 30 * (1 if case["input"] == "daily" else 24)
+                        step = 30 * per
                         meter = fr["observed"].iloc[::step].copy() * 30.0
                         if len(meter):
                             meter.iloc[-1] = np.nan
@@ -434,7 +440,7 @@ def run_dp(case):
             return {"ctor": exc_obs(e)}
         df = data.df
         has_obs = "observed" in df.columns
-        res = {"has_obs": has_obs, "n_in": len(df), "keys": list(model.params.submodels.keys())}
+        res = {"has_obs": has_obs, "n_in": len(df), "keys": list(model.params.submodels.keys()), "input_used": inp}
         try:
             with contextlib.redirect_stdout(io.StringIO()):
                 out = model.predict(data)
@@ -708,7 +714,8 @@ class Streams:
 
 
 def diagnose(run, stream, term):
-    fn = {"gi": "get_dst_indices (map expand (fst c))", "hp": "hourly_outcome (map expand (fst c))",
+    fn = {"gi": "let '(p, d, _) := c in get_dst_indices p (map expand d)",
+          "hp": "let '(p, d, _) := c in hourly_outcome p (map expand d)",
           "cd": "let '(a, i, _) := c in feature_matrix zmean a i", "td": "let '(p, i, _) := c in transform_dst zmean p i",
           "ts": "let '(p, i, _) := c in transform_spec zmean p i", "ci": "let '(s, e, _) := c in contiguous_index s e",
           "dp": "let '(o, n, r, _) := c in daily_out o n r"}[stream]
@@ -764,12 +771,12 @@ def process_hp(run, st, cases, results):
         if t is None:
             st.outside("gi", case, res["gi"])
         else:
-            st.add("gi", "(%s, %s)" % (cd, t), {"case": case, "impl": res["gi"]})
+            st.add("gi", "(%s, %s, %s)" % (POLICY, cd, t), {"case": case, "impl": res["gi"]})
         o = coq_outcome(p)
         if o is None:
             st.outside("hp", case, p)
         else:
-            st.add("hp", "(%s, %s)" % (cd, o), {"case": case, "impl": p})
+            st.add("hp", "(%s, %s, %s)" % (POLICY, cd, o), {"case": case, "impl": p})
 
 
 def process_windows(run, st, recs):
@@ -803,7 +810,7 @@ def process_windows(run, st, recs):
         if t is None:
             st.outside("gi", info, gi)
         else:
-            st.add("gi", "(%s, %s)" % (cd, t), dict(info, impl=gi))
+            st.add("gi", "(%s, %s, %s)" % (POLICY, cd, t), dict(info, impl=gi))
         if "cd" in rec:
             lens = rec["lens"]
             agg, r = [], 0
@@ -841,7 +848,7 @@ def process_patterns(run, st, rng, pats):
         elif u < 0.2 and cidx[1]:
             cidx[1][rng.randrange(len(cidx[1]))][1] = rng.randrange(0, 26)
         elif u < 0.26:
-            clens[rng.randrange(len(clens))] = rng.choice([0, 1, 22, 26])
+            clens[rng.randrange(len(clens))] = rng.choice([1, 2, 22, 26])
         elif u < 0.3:
             cidx[rng.randrange(2)].append([len(lens) + rng.randrange(0, 2), rng.randrange(0, 24)])
         agg, obs = impl_cd(clens, cidx, 2)
@@ -879,9 +886,9 @@ def process_dp(run, st, cases, results):
         key = vlib.sha(case)
         if "crash" in res:
             raise RuntimeError("worker crashed: " + res["crash"])
-        if "gen" in res or "ctor" in res:
+        if "ctor" in res:
             run.count(key, nontrivial=False)
-            run.dist("daily_data_class", "refused: %s" % (res.get("gen") or res.get("ctor"))["raised"])
+            run.dist("daily_data_class", "refused: %s in %s" % (res["ctor"]["raised"], res["ctor"]["where"]))
             continue
         for sig, msg in oracle_dp(case, res):
             run.violation(sig, "C06 %s [%s, %s input, observed %s]: %s" % (sig["call"], case["zone"], case["input"], sig["observed"], msg),
@@ -905,6 +912,34 @@ def process_dp(run, st, cases, results):
         if 0 < n_drop < len(res["rows"]):
             run.sample({"model": case["model"], "zone": case["zone"], "input": case["input"], "rows": len(res["rows"]),
                         "rows_without_prediction": n_drop, "observed": res["has_obs"], "index_equal": res["index_equal"]})
+
+
+def detect_policy(run):
+    """which behaviour does the implementation show where the unchanged code breaks the property (D11, D18)?
+    two probes of the real _get_dst_indices; the model is run in the mode observed, the oracle is not affected"""
+    global POLICY
+
+    def frame(z, date, obs):
+        s = cz.to_minutes(cz.local_midnight_utc(pd.Timestamp(date).toordinal(), z, 0))
+        idx = pd.DatetimeIndex(pd.to_datetime([(s + 60 * k) * MIN for k in range(5 * 24 - 1)], utc=True)).tz_convert(z)
+        return pd.DataFrame({"observed": obs, "temperature": 50.0}, index=idx)
+    a = impl_gi(frame("US/Pacific", "2023-03-10", np.nan))
+    b = impl_gi(frame("America/Havana", "2023-03-10", 1.0))
+    count_rows = {json.dumps([[], []]): False, json.dumps([[[2, 2]], []]): True}.get(json.dumps(a.get("ok")))
+    loc_by_mask = True if b.get("ok") == [[[2, 0]], []] else (False if b.get("raised") == "KeyError" else None)
+    run.cov["behaviour_detected"] = {
+        "short/long days recognised by": {False: "count of non-null observed (as coded: D11)", True: "number of rows (repaired)",
+                                          None: "unrecognised"}[count_rows],
+        "rows of a date looked up by": {False: "label df.loc[date] (as coded: D18)", True: "mask (repaired)", None: "unrecognised"}[loc_by_mask]}
+    if count_rows is None or loc_by_mask is None:
+        run.corr_failures.append({"stream": "policy-probe", "case": {"probes": ["US/Pacific 2023-03-10 without observed",
+                                                                               "America/Havana 2023-03-10"]},
+                                  "impl": [a, b], "model": "no policy of Model/Dst.v explains the probes"})
+    POLICY = "(policy_of %s %s)" % (coq_bool(bool(count_rows)), coq_bool(bool(loc_by_mask)))
+    run.cov["theorem_path"] = (
+        "C06_hourly_predict_index_partial (guards: usage on every row, resolvable date labels, pattern_ok); the refutation "
+        "witnesses C06_hourly_refuted_* are replayed on the implementation" if not (count_rows and loc_by_mask) else
+        "C06_hourly_predict_index_repaired (guard: pattern_ok only)")
 
 
 def zone_plan(run):
@@ -967,6 +1002,8 @@ def main():
 
     import opendsm.eemeter  # noqa  (imported before the pool forks)
     import synth_daily  # noqa
+    detect_policy(run)
+    run.log("behaviour detected: %s" % json.dumps(run.cov["behaviour_detected"]))
 
     if run.replay:
         rep = json.load(open(run.replay))
